@@ -18,7 +18,51 @@ def run(chk, drv):
         b = W.Batch(chk.rng, "s%d" % bi, 12)
         W.count_features(chk, b)
         one_batch(chk, drv, b)
-    replay_knowns_as_cases(chk, drv)
+    scalar_sweep(chk, drv)
+
+
+def boundary_ints(ty):
+    lo, hi = bpgen.INT_RANGE[ty]
+    out = {0, 1, -1, lo, hi, lo + 1, hi - 1}
+    for k in range(1, 10):
+        for c in (1 << (7 * k - 1), 1 << (7 * k)):
+            for d in (-1, 0, 1):
+                out.update((c + d, -c + d))
+    return sorted(v for v in out if lo <= v <= hi)
+
+
+def scalar_sweep(chk, drv):
+    """every integer kind × every placement × every varint-length boundary (incl. the zig-zag image)"""
+    kinds = [t for t in bpgen.SCALAR_T if t in bpgen.INT_RANGE]
+    for t in kinds:
+        fields = [bpgen.F("a", 1, t), bpgen.F("b", 2, t, optional=True), bpgen.F("c", 3, t, group=0), bpgen.F("d", 300, t, group=0),
+                  bpgen.F("e", 5, t, repeated=True), bpgen.F("f", 6, "map", mapK="string", mapV=t)]
+        if t in bpgen.MAPKEY_T:
+            fields.append(bpgen.F("g", 7, "map", mapK=t, mapV="bool"))
+        schema = [bpgen.M("W", fields, 1)]
+        classes = bpgen.build_bp(schema)
+        sid = "sw_" + t
+        if drv:
+            assert drv.ask1(bpgen.schema_line(sid, schema)) == "ok"
+
+        class B:
+            pass
+        b = B()
+        b.schema, b.classes, b.sid = schema, classes, sid
+        b.describe = lambda schema=schema: [[f.line() for f in m.fields] for m in schema]
+        b.schema_line = lambda sid=sid, schema=schema: bpgen.schema_line(sid, schema)
+        b.values = []
+        for v in boundary_ints(t):
+            for i, f in enumerate(fields):
+                if f.ty == "map":
+                    val = ("D", [(("s", b"k"), ("i", v))]) if f.mapV == t else ("D", [(("i", v), ("b", True))])
+                elif f.repeated:
+                    val = ("l", [("i", v), ("i", 0), ("i", v)])
+                else:
+                    val = ("i", v)
+                b.values.append(("c", 0, {i: val}))
+        chk.count("sweep_" + t, len(b.values))
+        one_batch(chk, drv, b)
 
 
 def observe(m):
@@ -112,10 +156,6 @@ def one_batch(chk, drv, b):
 
 WITNESS_SCHEMA = [bpgen.M("M0", [bpgen.F("s", 1, "string", optional=True), bpgen.F("y", 2, "bytes", optional=True),
                                  bpgen.F("m", 3, "message", kind="u0", optional=True)])]
-
-
-def replay_knowns_as_cases(chk, drv):
-    pass
 
 
 def witness_fails(w):
